@@ -1120,7 +1120,8 @@ func rulePanics(c *Ctx) []Obligation {
 			}
 			seen[k] = true
 			// documented exception: default case of the literal type switch in token.render
-			if ef.Via == tokRender && c.isLitDefaultPanic(ef) {
+			_ = tokRender
+			if c.isLitDefaultPanic(ef) {
 				o.add(Discharged, ef.Via, "panic for unsupported literal type (documented: \"Passing any other type will panic\")", ef.Pos, true, "reachable from %s", fname(e))
 				continue
 			}
@@ -1144,16 +1145,28 @@ func (c *Ctx) isLitDefaultPanic(ef Effect) bool {
 				if in.Pos() != ef.Pos {
 					continue
 				}
-				neg := 0
+				// default branch of a type switch over one value that refutes the 17 documented literal
+				// types (in token.render itself or in a helper the switch was extracted into)
+				neg := map[string]int{}
 				for atom, pol := range a.FactsAt(b) {
-					if strings.HasPrefix(atom, "is<") && strings.Contains(atom, ".content") {
-						if pol {
+					if strings.HasPrefix(atom, "is<") {
+						i := strings.Index(atom, ">(")
+						if pol || i < 0 {
 							return false
 						}
-						neg++
+						for _, dt := range documentedLitTypes {
+							if atom[3:i] == dt {
+								neg[atom[i+1:]]++
+							}
+						}
 					}
 				}
-				return neg >= 17
+				for _, n := range neg {
+					if n >= len(documentedLitTypes) {
+						return true
+					}
+				}
+				return false
 			}
 		}
 	}
